@@ -39,9 +39,10 @@ Subs(cfg)   == 1..cfg.nsubs
 Usable(cfg) == {cfg.usable[i] : i \in 1..Len(cfg.usable)}
 Lease(cfg)  == cfg.mode = "lease"
 
-\* ghost state g = [held : [Subs -> Int], stamp : [Subs -> Int], epoch : Int]
+\* ghost state g = [held, stamp, stampHi : [Subs -> Int], epoch : Int]
 G0(cfg) == [held  |-> [s \in Subs(cfg) |-> None],
             stamp |-> [s \in Subs(cfg) |-> 0],
+            stampHi |-> [s \in Subs(cfg) |-> 0],
             epoch |-> 0]
 
 HeldUnits(g)       == {g.held[s] : s \in DOMAIN g.held} \ {None}
@@ -68,21 +69,29 @@ EdgeClauses(cfg, g, e) ==
     \cup (IF e.ok /\ e.op = "specific" /\ g.held[s] \notin {None, e.arg} THEN {"Idempotent"} ELSE {})
   [] OTHER -> {}
 
-\* the ghost state after implementation step e
-Step(cfg, g, e) ==
+\* the ghost state after implementation step e; lk = the lookup answers observed after it.
+\* A lease holding is certainly live while epoch - stamp <= grace, certainly lapsed once
+\* epoch - stampHi > grace; stampHi > stamp only after a re-ask whose persistence failed (the
+\* subscriber got an error, the pool may or may not have refreshed the lease): in between,
+\* the ghost follows what the pool reports.
+Step(cfg, g, e, lk) ==
   LET s == e.sub IN
   CASE e.op \in {"alloc", "allocf"} ->
-         IF e.ok THEN [g EXCEPT !.held[s] = e.unit, !.stamp[s] = g.epoch] ELSE g
+         IF e.ok THEN [g EXCEPT !.held[s] = e.unit, !.stamp[s] = g.epoch, !.stampHi[s] = g.epoch]
+         ELSE IF e.fault /\ g.held[s] # None THEN [g EXCEPT !.stampHi[s] = g.epoch]
+         ELSE g
     [] e.op = "release" -> IF e.ok THEN [g EXCEPT !.held[s] = None] ELSE g
-    [] e.op = "renew"   -> IF e.ok /\ g.held[s] # None THEN [g EXCEPT !.stamp[s] = g.epoch] ELSE g
+    [] e.op = "renew"   -> IF e.ok /\ g.held[s] # None THEN [g EXCEPT !.stamp[s] = g.epoch, !.stampHi[s] = g.epoch] ELSE g
     [] e.op = "advance" ->
          LET ep == g.epoch + 1 IN
          [g EXCEPT !.epoch = ep,
                    !.held  = [t \in DOMAIN g.held |->
-                                IF Lease(cfg) /\ g.held[t] # None /\ ep - g.stamp[t] > cfg.grace
-                                THEN None ELSE g.held[t]]]
+                                IF ~Lease(cfg) \/ g.held[t] = None THEN g.held[t]
+                                ELSE IF ep - g.stampHi[t] > cfg.grace THEN None
+                                ELSE IF ep - g.stamp[t] <= cfg.grace THEN g.held[t]
+                                ELSE IF lk[t] = None THEN None ELSE g.held[t]]]
     [] e.op \in {"specific", "setalloc"} ->
-         IF e.ok THEN [g EXCEPT !.held[s] = e.arg, !.stamp[s] = g.epoch] ELSE g
+         IF e.ok THEN [g EXCEPT !.held[s] = e.arg, !.stamp[s] = g.epoch, !.stampHi[s] = g.epoch] ELSE g
     [] e.op = "relunit" ->
          IF e.ok THEN [g EXCEPT !.held = [t \in DOMAIN g.held |-> IF g.held[t] = e.arg THEN None ELSE g.held[t]]]
          ELSE g
